@@ -44,6 +44,7 @@ def load_known():
 
 def native_callable(key):
     filekey, qual = key.split('::')
+    qual = qual.split('#')[0]
     modname = filekey[:-3].replace('/', '.')
     mod = importlib.import_module(modname)
     obj = mod
@@ -75,6 +76,8 @@ class Run(object):
         self.solver_time = 0.0
         self.level = 'other'
         self.explanation = ''
+        self.monitored = {}
+        self.monitor_failures = {}
         self.replay_dir = os.path.join(ROOT, 'replay')
         os.makedirs(self.replay_dir, exist_ok=True)
 
@@ -133,9 +136,41 @@ class Run(object):
             rec['key'] = own[oid]
             self.solver_time += rec['time']
             self.obligations[oid] = rec
+        self.monitor([k for k in keys if not k.startswith('lemma')])
         if len(self.samples) < 6:
             for vc in all_vcs[:3]:
                 self.samples.append({'obligation': vc.oid, 'goal': str(vc.goal)[:300], 'n_hyps': len(vc.hyps)})
+
+    def monitor(self, keys):
+        """run-time contract monitor (assumption check: numba == Python semantics, engine soundness): the real compiled
+        function is executed on generated inputs and its contract evaluated natively.  A failure here is a failing input
+        against the real code and is reported as such."""
+        from contracts import gens
+        budget = 60 if self.tier == 'quick' else 400
+        for key in keys:
+            if key in self.monitored or key not in gens.GENS:
+                continue
+            c = self.lib.contracts[key]
+            try:
+                fn = native_callable(key)
+            except Exception as e:
+                continue      # the extraction already reports a missing function
+            n = ok = 0
+            rng = np.random.default_rng(self.seed + 1)
+            for args in gens.GENS[key](rng, 1):
+                n += 1
+                if n > budget:
+                    break
+                try:
+                    status, detail = concrete.check_call(self.ev, c, fn, args)
+                except Exception as e:
+                    status, detail = 'fail', 'exception %r' % (e,)
+                if status == 'ok':
+                    ok += 1
+                elif status == 'fail':
+                    self.monitor_failures.setdefault(key, {'args': concrete.to_jsonable(args), 'clause': detail, 'variant': 'compiled', 'tried': n})
+                    break
+            self.monitored[key] = {'cases': min(n, budget), 'ok': ok}
 
     # ------------------------------------------------------------------ failing-input search and replay
     def find_failing_input(self, key, budget_s=20):
@@ -192,11 +227,18 @@ class Run(object):
         for oid, rec in self.obligations.items():
             if not rec['discharged']:
                 by_key.setdefault(rec['key'], []).append(oid)
+        for key, found in self.monitor_failures.items():
+            if key in by_key:
+                continue
+            path = self.write_replay(key.split('::')[-1] + '_monitor', {'kind': 'deductive', 'function': key, 'failed_obligations': ['run-time contract monitor'],
+                                                                         'solver': {}, 'failing_input': found['args'], 'failing_clause': found['clause'], 'variant': found['variant']})
+            self.violations.append({'what': '%s: contract violated at run time on a generated input (%s) although its obligations discharge: '
+                                            'numba/Python semantic gap or encoding assumption broken' % (key, found['clause']), 'replay': path, 'tail': ''})
         for key, oids in by_key.items():
             if key.startswith('lemma::'):
                 self.checker_errors.append('ghost lemma obligations undischarged (independent of /repo): %s' % oids)
                 continue
-            found = self.find_failing_input(key, 20 if self.tier == 'quick' else 60)
+            found = self.monitor_failures.get(key) or self.find_failing_input(key, 20 if self.tier == 'quick' else 60)
             outputs = {oid: self.obligations[oid]['failed'][:2] for oid in oids}
             payload = {'kind': 'deductive', 'function': key, 'failed_obligations': oids, 'solver': outputs}
             if found and 'args' in found:
@@ -283,6 +325,7 @@ class Run(object):
                 'backends': backends,
                 'solver_time_s': round(self.solver_time, 2),
                 'functions_under_contract': self.functions,
+                'runtime_monitor': self.monitored,
                 'undischarged': sorted(o for o, r in self.obligations.items() if not r['discharged']),
                 'evaluations': max(cases + n_obl, 1),
                 'distinct_nontrivial': max(nontriv + n_dis, 0),
